@@ -6,6 +6,7 @@ from ..core import astq
 from ..core.cfg import guards_of, ENTRY
 from ..core.types import is_inst
 from . import common as K
+from . import flowalg
 from .c08 import engines
 
 EXPLANATION = (
@@ -27,6 +28,7 @@ def run(ctx):
     ctx.each(r20e, ctx, repo)
     ctx.each(r20f, ctx, repo)
     ctx.each(r20g, ctx, repo)
+    ctx.each(flowalg.accumulator_rule, ctx, repo, "R20h", [("model", "Population.popsize")], 2, "the population size used as aggregation weight")
 
 
 def _bound_in(loop):
